@@ -169,12 +169,31 @@ def run(ctx):
     zsrc = unparse(z)
     ctx.ob("C20.behavior-copied", "awkward_constructors.zip", "behavior = dict(vector.backends.awkward.behavior)" in zsrc and "vector.backends.awkward.behavior.update" not in zsrc,
            "zip must attach a copy of the vector behavior dict", None, "src/vector/backends/awkward_constructors.py")
-    asrc = unparse(A)
-    ok = "x.behavior = dict(x.behavior)" in asrc and asrc.index("x.behavior = dict(x.behavior)") < asrc.index("x.behavior.update(vector.backends.awkward.behavior)")
+    # Array (and the private helpers it calls, one level): every `<v>.behavior.update(...)` is preceded, in the same function, by `<v>.behavior = dict(<v>.behavior)`
+    fns_ = [A] + [cf.functions[c_.func.id] for c_ in ast.walk(A) if isinstance(c_, ast.Call) and isinstance(c_.func, ast.Name) and c_.func.id in cf.functions and c_.func.id != "Array"]
+    ok, n_upd = True, 0
+    for f_ in fns_:
+        events = []
+        for st_ in ast.walk(f_):
+            if isinstance(st_, ast.Assign) and len(st_.targets) == 1 and isinstance(st_.targets[0], ast.Attribute) and st_.targets[0].attr == "behavior" \
+                    and isinstance(st_.value, ast.Call) and unparse(st_.value.func) == "dict" and len(st_.value.args) == 1 and unparse(st_.value.args[0]) == unparse(st_.targets[0]):
+                events.append((st_.lineno, st_.col_offset, "copy", unparse(st_.targets[0].value)))
+            if isinstance(st_, ast.Call) and isinstance(st_.func, ast.Attribute) and st_.func.attr == "update" and isinstance(st_.func.value, ast.Attribute) and st_.func.value.attr == "behavior":
+                events.append((st_.lineno, st_.col_offset, "update", unparse(st_.func.value.value)))
+        copied = set()
+        for _, _, kind_, v_ in sorted(events):
+            if kind_ == "copy":
+                copied.add(v_)
+            else:
+                n_upd += 1
+                if v_ not in copied or v_.startswith("vector."):
+                    ok = False
+    ok = ok and n_upd >= 1
     ctx.ob("C20.behavior-copied", "awkward_constructors.Array", ok, "Array must copy an existing behavior dict before updating it", None, "src/vector/backends/awkward_constructors.py")
     af = facts("src/vector/backends/awkward.py", ctx.repo)
     wr_ = af.method("VectorAwkward", "_wrap_result")
-    beh = [unparse(k.value) for n in ast.walk(wr_) if isinstance(n, ast.Call) for k in n.keywords if k.arg == "behavior"]
+    from ..loader import resolve_helper_expr
+    beh = [unparse(resolve_helper_expr(k.value, af)) for n in ast.walk(wr_) if isinstance(n, ast.Call) for k in n.keywords if k.arg == "behavior"]
     ctx.ob("C20.behavior-copied", "VectorAwkward._wrap_result behavior=", len(beh) >= 5 and all(b == "None if vector._awkward_registered else first.behavior" for b in beh),
            f"behavior arguments: {sorted(set(beh))}", None, "src/vector/backends/awkward.py")
     ctx.decline("thread interleavings themselves (argued from purity: no global store, no cache, thread-local errstate); NumPy/Awkward internals; the import lock for lazy imports")
